@@ -112,6 +112,7 @@ func checkC08(c *Ctx) {
 	r.Rule("R08.3", "effect before return; single lookup per Read", 6)
 	r.Rule("R08.4", "Walk iterator discipline: every iterator step under the shard lock", 3)
 	r.Rule("R08.5", "lock balance: all shard locks released at every exit, no self-deadlock", 20)
+	r.Rule("R08.7", "per-key effects: one index function per backend, hash hits confirmed by the full key, Delete reports removal only with evidence, batch operations reach every entry (obligations of C07 R07.1/R07.3/R07.4, C09 R09.3)", 20)
 	r.Rule("R08.6", "stored entries are private and immutable (key copied, no write after publication, no unprotected storage field)", 3)
 	r.NotDecided = []string{"linearizability of histories (real-time order, batch operations' per-key instants)", "eviction interplay with concurrent writes", "Go map / sync.Map / RWMutex semantics"}
 	for _, b := range backends {
@@ -142,6 +143,23 @@ func checkC08(c *Ctx) {
 	if !hasViolationRule(r.Obls, "R08.6") {
 		r.OK("R08.6", "backends", "no in-place mutation of published entries, no unprotected storage field")
 	}
+	// R08.7: an operation on key k touches k's slot only and a batch operation reaches every slot: the slot is chosen by one index
+	// function per backend (R07.1), a hash hit is confirmed by the full key before the entry is used or deleted (R09.3), Delete
+	// reports removal only with evidence (R07.3), ExpireAll/DeleteAll/Len act on every entry of every shard (R07.4)
+	c.borrow("C07", func() {
+		for _, b := range backends {
+			c.c07Index(b)
+			c.c07Delete(b)
+			c.c07Batch(b)
+		}
+	}, func(o *coreObl) (string, bool) { return "R08.7", o.Rule == "R07.1" || o.Rule == "R07.3" || o.Rule == "R07.4" })
+	c.borrow("C09", func() {
+		for _, b := range backends {
+			if b.Sharded {
+				c.c09Confirm(b)
+			}
+		}
+	}, func(o *coreObl) (string, bool) { return "R08.7", o.Rule == "R09.3" })
 }
 
 func hasViolationRule(obls []*coreObl, rule string) bool {
